@@ -262,6 +262,13 @@ pub struct ThreadSt {
     pub last_site: (&'static str, u32),
     pub last_kind: u8,
     pub cas_fails: u32,
+    /// global step count when this thread last performed a step
+    pub last_run: u64,
+    /// global step count at this thread's previous yield
+    pub last_yield: u64,
+    /// fair scheduling (Musuvathi-Qadeer): threads that must take a step before this one may run
+    /// again (it yielded twice without them having been scheduled although they could have been)
+    pub must_precede: u32,
 }
 
 #[derive(Clone, Copy, PartialEq, Debug)]
@@ -300,6 +307,8 @@ pub struct Opts {
     /// operations on heap locations that only one thread (frame kind) ever touches are no
     /// scheduling points; verified in every execution, the explorer restarts when the set grows
     pub reduce: bool,
+    /// the harness's own actions wait inside handler frames on purpose (relay scenarios)
+    pub no_discipline: bool,
 }
 
 pub trait Monitor {
@@ -754,28 +763,42 @@ fn schedule(t: usize) {
         }
         let n = e.threads.len();
         let mut alts: Vec<(AltKind, u8)> = Vec::with_capacity(8);
-        let t_enabled = e.enabled(t) && !e.threads[t].yielded;
+        // threads that could take a step if chosen (ignoring fairness constraints)
+        let mut live_mask: u32 = 0;
+        for x in 1..n {
+            if e.enabled(x) {
+                live_mask |= 1 << x;
+            }
+        }
+        let fair = |e: &Exec, x: usize| e.threads[x].must_precede & live_mask & !(1u32 << x) == 0;
+        let t_enabled = e.enabled(t) && !e.threads[t].yielded && fair(e, t);
         // Enabled, non-yielded threads: the running one first.
         if t_enabled {
             alts.push((AltKind::Run(t as u8), 0));
         }
-        for x in 1..n {
-            if x != t && e.enabled(x) && !e.threads[x].yielded {
-                alts.push((AltKind::Run(x as u8), if t_enabled { 1 } else { 0 }));
-            }
+        // The others: least recently run first (so that two threads yielding to each other cannot
+        // starve a third one under the default choice), ties by ascending id.
+        let mut others: Vec<usize> = (1..n).filter(|&x| x != t && e.enabled(x) && !e.threads[x].yielded && fair(e, x)).collect();
+        others.sort_by_key(|&x| (e.threads[x].last_run, x));
+        for x in others {
+            alts.push((AltKind::Run(x as u8), if t_enabled { 1 } else { 0 }));
         }
         if alts.is_empty() {
             // Nobody can move except possibly yielded threads / the quiescence waiter.
             let mut forced: Vec<usize> = Vec::new();
-            if e.enabled(t) && e.threads[t].yielded {
+            if e.enabled(t) {
                 forced.push(t);
             }
             for x in 1..n {
-                if x != t && e.enabled(x) && e.threads[x].yielded {
+                if x != t && e.enabled(x) {
                     forced.push(x);
                 }
             }
             if !forced.is_empty() {
+                // every enabled thread is held back by a yield or a fairness constraint: drop them
+                for x in 1..n {
+                    e.threads[x].must_precede = 0;
+                }
                 e.forced_reruns += 1;
                 e.last_forced = forced[0];
                 if e.forced_reruns > 64 {
@@ -895,11 +918,15 @@ fn stepped2(t: usize, progress_made: bool) {
     let e = exec();
     e.steps += 1;
     e.threads[t].steps += 1;
+    e.threads[t].last_run = e.steps;
     if handler_depth() > 0 {
         e.threads[t].handler_steps += 1;
     }
     if progress_made || t != e.last_forced {
         e.forced_reruns = 0;
+    }
+    for x in 1..e.threads.len() {
+        e.threads[x].must_precede &= !(1u32 << t);
     }
     for x in 1..e.threads.len() {
         if x != t {
@@ -1233,10 +1260,22 @@ fn hook_yield(kind: u8) {
     if e.phase == Phase::Parallel || e.phase == Phase::Priming {
         e.threads[t].yielded = true;
         e.threads[t].pending = Pending::Op;
+        // fairness: whoever could have run since this thread's previous yield but was not scheduled
+        // goes first from now on
+        let prev = e.threads[t].last_yield;
+        let mut mask = 0u32;
+        for u in 1..e.threads.len() {
+            if u != t && e.enabled(u) && e.threads[u].last_run <= prev {
+                mask |= 1 << u;
+            }
+        }
+        e.threads[t].must_precede |= mask;
+        e.threads[t].last_yield = e.steps + 1;
         schedule(t);
         let e = exec();
         e.steps += 1;
         e.threads[t].steps += 1;
+        e.threads[t].last_run = e.steps;
         if let Some(p) = progress() {
             p.heartbeat.fetch_add(1, Ordering::Relaxed);
         }
@@ -1546,6 +1585,9 @@ fn new_thread_st(name: &'static str, pending: Pending, clock: VClock, nest: Vec<
         last_site: ("start", 0),
         last_kind: 0,
         cas_fails: 0,
+        last_run: 0,
+        last_yield: 0,
+        must_precede: 0,
     }
 }
 
@@ -1610,6 +1652,9 @@ pub fn run_one<S: Sync + Send + 'static>(sc: &Scenario<S>, choices: &[u32], keep
     ex.threads.push(new_thread_st("main", Pending::Op, c0, vec![], 0));
     if let Some(m) = &sc.monitor {
         ex.monitor = Some(m());
+    }
+    if sc.opts.no_discipline {
+        ex.handler_discipline = false;
     }
     ALLOC_IN_HANDLER.store(0, Ordering::Relaxed);
     if let Some(p) = progress() {
